@@ -154,12 +154,13 @@ func flattenKVs(l []kv, prefix string, out *[][2]string) {
 }
 
 func c07emit(cas c07case) (payloads []string, pan string) {
-	resetGlobals()
+	caseSeq++
+	resetAlt(caseSeq)
 	fl := slog.LstdFlags &^ (slog.Lcaller | slog.LattrsR)
 	if cas.AttrsR {
 		fl |= slog.LattrsR
 	}
-	slog.SetFlags(fl | slog.LnoInterrupt)
+	setFlagsVia(fl|slog.LnoInterrupt, caseSeq/2)
 	slog.VerifNowHook = func() time.Time { return fixedTime }
 	defer func() { slog.VerifNowHook = nil }()
 	rec := &recorder{}
